@@ -28,9 +28,40 @@ VENV_PY = '/venv/bin/python'
 from pyvc.registry import REGISTRY, contract, PROP_TRUSTED, PROP_LEVEL, PROP_EXPLANATION  # noqa: E402
 
 
+class ContractWallLimit(BaseException):
+    """Raised by SIGALRM inside a worker: the symbolic execution of one contract exceeded its wall-clock limit (no verdict: engine error, exit 3)."""
+
+
+def _on_alarm(signum, frame):
+    raise ContractWallLimit()
+
+
 def _run_contract(args):
     prop, modname, cname, tier, seed = args
     t0 = time.time()
+    # a contract whose symbolic execution does not terminate on changed code must not keep the whole check (and its bounded run) from reporting
+    limit = int(os.environ.get('VERIF_CONTRACT_WALL_S', '3000' if tier == 'thorough' else '900'))
+    try:
+        import signal
+        signal.signal(signal.SIGALRM, _on_alarm)
+        signal.alarm(limit)
+    except Exception:
+        pass
+    try:
+        return _run_contract_inner(args, t0)
+    except ContractWallLimit:
+        return {'contract': cname, 'results': [], 'errors': [f"{cname}: no verdict - symbolic execution exceeded the per-contract wall limit of {limit} s"],
+                'paths': 0, 'functions': {}, 'dropped': [], 'covers': {}, 'wall': round(time.time() - t0, 3),
+                'unlisted_reads': [], 'samples': [], 'declared_functions': [], 'note': ''}
+    finally:
+        try:
+            signal.alarm(0)
+        except Exception:
+            pass
+
+
+def _run_contract_inner(args, t0):
+    prop, modname, cname, tier, seed = args
     try:
         importlib.import_module(modname)
         c = [c for c in REGISTRY if c.name == cname][0]
